@@ -26,6 +26,18 @@ FAMILIES = {"eng": dict(
     coq_case=ec.cecase, preamble=ec.eng_preamble, identity=ec.eng_identity, sample=ec.eng_sample, shrink_candidates=ec.eng_shrink)}
 
 
+def _ctx_family():
+    # what the CLI adds to the options on its own (the context boosts of the working directory) is part of "the same
+    # query and options" as a user sees them: the analysis of one directory must give one answer (C13's family, reused)
+    import importlib
+    f = dict(importlib.import_module("props.c13").FAMILIES["ctx"])
+    f["N"] = {"quick": 250, "thorough": 3000}
+    return f
+
+
+FAMILIES["ctx"] = _ctx_family()
+
+
 def keep(c):
     return not c.get("note_db") and not c.get("note")
 
